@@ -7,10 +7,10 @@ from engine.tlc import MachineryError
 from bind.sandbox import PROP_KEYS
 
 CFGS = {("C04", "quick"): ["MC_Sandbox_modes_q.cfg", "MC_Sandbox_modes2_q.cfg"], ("C05", "quick"): ["MC_Sandbox_modes_q.cfg", "MC_Sandbox_tracer_q.cfg", "MC_Sandbox_blocked_q.cfg"],
-        ("C15", "quick"): ["MC_Sandbox_ledger_q.cfg", "MC_Sandbox_inputs_q.cfg"],
+        ("C15", "quick"): ["MC_Sandbox_ledger_q.cfg", "MC_Sandbox_inputs_q.cfg", "MC_Sandbox_saved_q.cfg"],
         ("C04", "thorough"): ["MC_Sandbox_modes_q.cfg", "MC_Sandbox_modes2_q.cfg", "MC_Sandbox_modes_t.cfg"],
         ("C05", "thorough"): ["MC_Sandbox_modes_q.cfg", "MC_Sandbox_modes2_q.cfg", "MC_Sandbox_tracer_q.cfg", "MC_Sandbox_blocked_q.cfg", "MC_Sandbox_modes_t.cfg"],
-        ("C15", "thorough"): ["MC_Sandbox_ledger_q.cfg", "MC_Sandbox_inputs_q.cfg", "MC_Sandbox_ledger_t.cfg"]}
+        ("C15", "thorough"): ["MC_Sandbox_ledger_q.cfg", "MC_Sandbox_inputs_q.cfg", "MC_Sandbox_saved_q.cfg", "MC_Sandbox_ledger_t.cfg"]}
 MUTANTS = {"C04": [("MUT_Sandbox_fragile_capture.cfg", "Contained")],
            "C05": [("MUT_Sandbox_no_base_handler.cfg", "Restored"), ("MUT_Sandbox_tracer_conditional_restore.cfg", "Restored"),
                    ("MUT_Sandbox_tracer_not_reentrant.cfg", "Restored"),
@@ -19,7 +19,38 @@ MUTANTS = {"C04": [("MUT_Sandbox_fragile_capture.cfg", "Contained")],
                    ("MUT_Sandbox_falsy_inputs_ignored.cfg", "InputFifo")]}
 
 
+def _without_c(v):
+    """The expected ledger with everything written through the saved stream reference ('c') taken out."""
+    if isinstance(v, list):
+        out = [_without_c(x) for x in v if x != "c"]
+        return out
+    if isinstance(v, dict):
+        return {k: _without_c(x) for k, x in v.items()}
+    return v
+
+
+def only_saved_reference_lost(m):
+    f = m.get("file") or {}
+    progs = [f.get("top", {})] + list(f.get("fns", []))
+    if not any("wsv" in p.get("effs", []) for p in progs):
+        return False
+    exp, obs = m.get("expected", {}), m.get("observed", {})
+    # what was observed is what was expected with some of the 'c' writes missing, everything else in place
+    for k in ("raw", "lines", "ctxs"):
+        if k in exp and k in obs:
+            e, o = _without_c(exp[k]), _without_c(obs[k])
+            if k == "lines":
+                e, o = [x for x in e if x], [x for x in o if x]
+            if json.loads(json.dumps(e, sort_keys=True)) != json.loads(json.dumps(o, sort_keys=True)):
+                return False
+    if json.dumps(obs.get("raw")).count('"c"') >= json.dumps(exp.get("raw")).count('"c"'):
+        return False
+    return True
+
+
 def key_of(prop, m, mine):
+    if prop == "C15" and only_saved_reference_lost(m):
+        return "C15|written-through-saved-stdout-reference-lost"
     return "%s|%s|%s|%s" % (prop, "+".join(sorted(mine)), m["action"]["op"], m.get("mode", "-"))
 
 
